@@ -1,9 +1,11 @@
 import Uniseg.Properties.C11
-import Uniseg.Properties.C01U
-import Uniseg.Properties.C02U
-import Uniseg.Properties.C03U
-import Uniseg.Properties.C04U
-/-! # C11 (suffix half) without side conditions: every text of code points -/
+import Uniseg.Properties.LettersCur
+import Uniseg.Properties.C06
+/-! # C11 without side conditions: every text of code points
+
+The side condition of `C11` (every letter of the text is in the certificates' alphabets) is discharged
+from the *current* tables alone (`LettersCur`), not from the Unicode reference: compositionality does not
+depend on which class a code point has. -/
 namespace Uniseg.Properties.C11U
 open Uniseg Uniseg.Gen Uniseg.Auto Uniseg.Chain Uniseg.Spec Uniseg.Lift Uniseg.Properties
 
@@ -11,23 +13,23 @@ theorem word_restart (pre : List Nat) (x : Nat) (suf : List Nat) (hpre : pre ≠
     (hb : (transitionWordBreakState (stateAfter transitionWordBreakState none pre (x :: suf)) x suf).2 = true) :
     runV transitionWordBreakState (some (transitionWordBreakState none x suf).1) suf =
       runV transitionWordBreakState (some (transitionWordBreakState (stateAfter transitionWordBreakState none pre (x :: suf)) x suf).1) suf :=
-  C11.word_restart pre x suf hpre (C02U.lettersOK _ hcp) hb
+  C11.word_restart pre x suf hpre (LettersCur.w_lettersOK _ hcp) hb
 
 theorem sentence_restart (pre : List Nat) (x : Nat) (suf : List Nat) (hpre : pre ≠ []) (hcp : CodePoints (pre ++ x :: suf))
     (hb : (transitionSentenceBreakState (stateAfter transitionSentenceBreakState none pre (x :: suf)) x suf).2 = true) :
     runV transitionSentenceBreakState (some (transitionSentenceBreakState none x suf).1) suf =
       runV transitionSentenceBreakState (some (transitionSentenceBreakState (stateAfter transitionSentenceBreakState none pre (x :: suf)) x suf).1) suf :=
-  C11.sentence_restart pre x suf hpre (C03U.lettersOK _ hcp) hb
+  C11.sentence_restart pre x suf hpre (LettersCur.s_lettersOK _ hcp) hb
 
 theorem line_restart (pre : List Nat) (x : Nat) (suf : List Nat) (hpre : pre ≠ []) (hcp : CodePoints (pre ++ x :: suf))
     (hb : ((trL (stateAfter trL none pre (x :: suf)) x suf).2 != LB.V.no) = true) :
     runV trL (some (trL none x suf).1) suf = runV trL (some (trL (stateAfter trL none pre (x :: suf)) x suf).1) suf :=
-  C11.line_restart pre x suf hpre (C04U.lettersOK _ hcp) hb
+  C11.line_restart pre x suf hpre (LettersCur.l_lettersOK _ hcp) hb
 
 theorem grapheme_restart (pre : List Nat) (x : Nat) (suf : List Nat) (hpre : pre ≠ []) (hcp : CodePoints (pre ++ x :: suf))
     (hb : (trG (stateAfter trG none pre (x :: suf)) x suf).2 = true) :
     runV trG (some (trG none x suf).1) suf = runV trG (some (trG (stateAfter trG none pre (x :: suf)) x suf).1) suf :=
-  C11.grapheme_restart pre x suf hpre (C01U.lettersOK _ hcp) hb
+  C11.grapheme_restart pre x suf hpre (LettersCur.g_lettersOK _ hcp) hb
 
 
 /-! ## both halves, every text of code points: verdicts and segments compose at a reported boundary -/
@@ -37,28 +39,28 @@ theorem word_verdicts_compose (pre : List Nat) (y : Nat) (ys : List Nat) (hpre :
     ((runV transitionWordBreakState none (pre ++ y :: ys)).map (·.2)).tail =
       ((runV transitionWordBreakState none pre).map (·.2)).tail ++ true :: ((runV transitionWordBreakState none (y :: ys)).map (·.2)).tail :=
   C11.verdicts_compose algW wbL transitionWordBreakState Cert.Word.cert Cert.Word.valid Cert.WordCut.cert Cert.WordCut.valid
-    (transW_factor C02.fffd_inert) pre y ys hpre (C02U.lettersOK _ hcp) (by rw [C11.cut_letters.2.1]; exact C02U.lettersOK _ hcp) true hb rfl
+    (transW_factor C02.fffd_inert) pre y ys hpre (LettersCur.w_lettersOK _ hcp) (by rw [C11.cut_letters.2.1]; exact LettersCur.w_lettersOK _ hcp) true hb rfl
 
 theorem sentence_verdicts_compose (pre : List Nat) (y : Nat) (ys : List Nat) (hpre : pre ≠ []) (hcp : CodePoints (pre ++ y :: ys))
     (hb : ((runV transitionSentenceBreakState none (pre ++ y :: ys)).map (·.2))[pre.length]? = some true) :
     ((runV transitionSentenceBreakState none (pre ++ y :: ys)).map (·.2)).tail =
       ((runV transitionSentenceBreakState none pre).map (·.2)).tail ++ true :: ((runV transitionSentenceBreakState none (y :: ys)).map (·.2)).tail :=
   C11.verdicts_compose algS sbL transitionSentenceBreakState Cert.Sentence.cert Cert.Sentence.valid Cert.SentenceCut.cert Cert.SentenceCut.valid
-    transS_factor pre y ys hpre (C03U.lettersOK _ hcp) (by rw [C11.cut_letters.2.2.1]; exact C03U.lettersOK _ hcp) true hb rfl
+    transS_factor pre y ys hpre (LettersCur.s_lettersOK _ hcp) (by rw [C11.cut_letters.2.2.1]; exact LettersCur.s_lettersOK _ hcp) true hb rfl
 
 theorem line_verdicts_compose (pre : List Nat) (y : Nat) (ys : List Nat) (hpre : pre ≠ []) (hcp : CodePoints (pre ++ y :: ys))
     (v : LB.V) (hv : ((runV trL none (pre ++ y :: ys)).map (·.2))[pre.length]? = some v) (hb : (v != LB.V.no) = true) :
     ((runV trL none (pre ++ y :: ys)).map (·.2)).tail =
       ((runV trL none pre).map (·.2)).tail ++ v :: ((runV trL none (y :: ys)).map (·.2)).tail :=
   C11.verdicts_compose algL lbIn trL Cert.Line.cert Cert.Line.valid Cert.LineCut.cert Cert.LineCut.valid
-    transL_factor pre y ys hpre (C04U.lettersOK _ hcp) (by rw [C11.cut_letters.2.2.2]; exact C04U.lettersOK _ hcp) v hv hb
+    transL_factor pre y ys hpre (LettersCur.l_lettersOK _ hcp) (by rw [C11.cut_letters.2.2.2]; exact LettersCur.l_lettersOK _ hcp) v hv hb
 
 theorem grapheme_verdicts_compose (pre : List Nat) (y : Nat) (ys : List Nat) (hpre : pre ≠ []) (hcp : CodePoints (pre ++ y :: ys))
     (hb : ((runV trG none (pre ++ y :: ys)).map (·.2))[pre.length]? = some true) :
     ((runV trG none (pre ++ y :: ys)).map (·.2)).tail =
       ((runV trG none pre).map (·.2)).tail ++ true :: ((runV trG none (y :: ys)).map (·.2)).tail :=
   C11.verdicts_compose algG gbLetter trG Cert.Grapheme.cert Cert.Grapheme.valid Cert.GraphemeCut.cert Cert.GraphemeCut.valid
-    (fun _ _ _ => rfl) pre y ys hpre (C01U.lettersOK _ hcp) (by rw [C11.cut_letters.1]; exact C01U.lettersOK _ hcp) true hb rfl
+    (fun _ _ _ => rfl) pre y ys hpre (LettersCur.g_lettersOK _ hcp) (by rw [C11.cut_letters.1]; exact LettersCur.g_lettersOK _ hcp) true hb rfl
 
 /-- the code points of a decoded text -/
 theorem runeVals_codepoints (b : List Nat) : CodePoints (runeVals (Utf8.runesOf b)) := decoded_codepoints b
@@ -186,5 +188,66 @@ theorem grapheme_segments_compose (amb : Nat) (rp : List Rune) (ry : Rune) (rs :
     have e2 : runeVals (ry :: rs) = ry.1 :: runeVals rs := by simp [runeVals]
     simp only [List.cons_append]
     rw [← List.cons_append, e1, e2, hcomp, C11.cutsV_compose id true rfl, List.map_append, setEnd_lengths]
+
+
+/-! ## cluster widths compose as well -/
+
+/-- the documented widths of consecutive groups of `ns` code points of `rs` -/
+def widthsOf (amb : Nat) : List Rune → List Nat → List Nat
+  | _, [] => []
+  | rs, n :: ns => clusterWidth amb (runeVals (rs.take n)) :: widthsOf amb (rs.drop n) ns
+
+theorem groupWidths_eq (amb : Nat) : ∀ (l : List (Nat × Nat × Nat)) (rs : List Rune),
+    C06.groupWidths amb rs l = widthsOf amb rs (l.map (·.1)) := by
+  intro l
+  induction l with
+  | nil => intro _; rfl
+  | cons x xs ih => intro rs; simp only [C06.groupWidths, List.map_cons, widthsOf]; rw [ih]
+
+theorem widthsOf_append (amb : Nat) (rs : List Rune) : ∀ (l1 : List Nat) (rp : List Rune) (l2 : List Nat), l1.sum = rp.length →
+    widthsOf amb (rp ++ rs) (l1 ++ l2) = widthsOf amb rp l1 ++ widthsOf amb rs l2 := by
+  intro l1
+  induction l1 with
+  | nil =>
+    intro rp l2 h
+    have : rp = [] := List.eq_nil_of_length_eq_zero (by simpa using h.symm)
+    subst this; rfl
+  | cons n ns ih =>
+    intro rp l2 h
+    simp only [List.sum_cons] at h
+    have hn : n ≤ rp.length := by omega
+    simp only [List.cons_append, widthsOf]
+    rw [List.take_append_of_le_length hn, List.drop_append_of_le_length hn]
+    rw [ih (rp.drop n) l2 (by simp only [List.length_drop]; omega)]
+
+/-- every cluster of the chain from −1 carries the documented width of its code points -/
+theorem grapheme_chain_widths (amb : Nat) (rs : List Rune) :
+    (chain (firstGraphemeClusterR amb) rs none).map (·.2.1) =
+      widthsOf amb rs ((chain (firstGraphemeClusterR amb) rs none).map (·.1)) := by
+  rw [← groupWidths_eq]
+  exact C06.chain_widths_eq amb rs.length rs none (by intro s r rest hs; cases hs)
+
+/-- **C11 for grapheme clusters, lengths and widths**: at a reported cluster boundary the chain on the
+whole text yields the clusters *and widths* of the chain on the prefix followed by those of the chain
+on the suffix, each segmented on its own from −1; for every ambiguous-width setting -/
+theorem grapheme_segments_widths_compose (amb : Nat) (rp : List Rune) (ry : Rune) (rs : List Rune) (hrp : rp ≠ [])
+    (hcp : CodePoints (runeVals rp ++ ry.1 :: runeVals rs))
+    (hb : ((runV trG none (runeVals rp ++ ry.1 :: runeVals rs)).map (·.2))[(runeVals rp).length]? = some true) :
+    (chain (firstGraphemeClusterR amb) (rp ++ ry :: rs) none).map (fun x => (x.1, x.2.1)) =
+      (chain (firstGraphemeClusterR amb) rp none).map (fun x => (x.1, x.2.1)) ++
+        (chain (firstGraphemeClusterR amb) (ry :: rs) none).map (fun x => (x.1, x.2.1)) := by
+  have hl := grapheme_segments_compose amb rp ry rs hrp hcp hb
+  have hsum : ((chain (firstGraphemeClusterR amb) rp none).map (·.1)).sum = rp.length :=
+    (chain_partition (firstGraphemeClusterR amb) (fun rs st h => (C05.grapheme_call amb rs st h).1)
+      (C05.le_of_call _ (fun _ => rfl) (fun rs st h => (C05.grapheme_call amb rs st h).2)) rp.length rp none (Nat.le_refl _)).2.1
+  have hw : (chain (firstGraphemeClusterR amb) (rp ++ ry :: rs) none).map (·.2.1) =
+      (chain (firstGraphemeClusterR amb) rp none).map (·.2.1) ++ (chain (firstGraphemeClusterR amb) (ry :: rs) none).map (·.2.1) := by
+    rw [grapheme_chain_widths amb (rp ++ ry :: rs), grapheme_chain_widths amb rp, grapheme_chain_widths amb (ry :: rs), hl,
+      widthsOf_append amb (ry :: rs) _ rp _ hsum]
+  have zip : ∀ (l : List (Nat × Nat × Nat)), l.map (fun x => (x.1, x.2.1)) = (l.map (·.1)).zip (l.map (·.2.1)) := by
+    intro l; induction l with
+    | nil => rfl
+    | cons a as ih => simp only [List.map_cons, List.zip_cons_cons, ih]
+  rw [zip, zip, zip, hl, hw, List.zip_append (by simp)]
 
 end Uniseg.Properties.C11U
